@@ -173,7 +173,7 @@ type forgedSigner struct {
 	by ucan.Signer
 }
 
-func (f forgedSigner) DID() did.DID                           { return f.as }
+func (f forgedSigner) DID() did.DID                          { return f.as }
 func (f forgedSigner) Sign(m []byte) signature.SignatureView { return f.by.Sign(m) }
 func (f forgedSigner) SignatureCode() uint64                 { return f.by.SignatureCode() }
 func (f forgedSigner) SignatureAlgorithm() string            { return f.by.SignatureAlgorithm() }
@@ -390,13 +390,13 @@ type Built struct {
 
 type CtxSpec struct {
 	Authority   *Prin
-	SelfIssued  bool              // can-issue: resource == issuer DID
-	Owners      map[string]*Prin  // can-issue: resource -> principal allowed to issue
-	Revoked     map[string]bool   // token names whose link the checker treats as revoked
-	Resolvable  map[string]bool   // token names the proof resolver can supply
-	ParserKind  string            // "ed" | "ed+rsa"
-	KeyResolver map[string]*Prin  // non-key DID string -> did:key principal
-	Now         int               // the second at which Access ran (filled by run)
+	SelfIssued  bool             // can-issue: resource == issuer DID
+	Owners      map[string]*Prin // can-issue: resource -> principal allowed to issue
+	Revoked     map[string]bool  // token names whose link the checker treats as revoked
+	Resolvable  map[string]bool  // token names the proof resolver can supply
+	ParserKind  string           // "ed" | "ed+rsa"
+	KeyResolver map[string]*Prin // non-key DID string -> did:key principal
+	Now         int              // the second at which Access ran (filled by run)
 }
 
 type World struct {
@@ -962,7 +962,7 @@ func writeWorldCases(dir, prefix string, cases []string, shards int, checkFn str
 		}
 		var sb bytes.Buffer
 		sb.WriteString("From Ucanto Require Import Base Pattern Time Validator Check_Validator.\nOpen Scope N_scope.\n")
-		defs, body := internHex(coqList(cases[k*per:hi]))
+		defs, body := internHex(coqList(cases[k*per : hi]))
 		sb.WriteString(defs)
 		fmt.Fprintf(&sb, "Definition cases : list wcase := %s.\n", body)
 		fmt.Fprintf(&sb, "Definition M := Eval vm_compute in %s cases.\nPrint M.\n", checkFn)
